@@ -54,3 +54,12 @@ Theorem C01_collect_merge_iter : forall (V : Type) (src : list V) (ops : list (o
   = seq_chain (stages_of ops) src.
 Proof. intros V src ops r ordered sched Hw Hd. apply iter_collect_merge; assumption. Qed.
 Print Assumptions C01_collect_merge_iter.
+
+(** eager sites: the intermediate vector that an eager transformation materialises with
+    [collect_vec] -- computed by a real run of the runner machine under any schedule -- is the
+    denotation the construction model ([apply_stage]) continues with *)
+Theorem C01_eager_vector : forall (V : Type) (st : pstate V) (r : Runner) (sched : list nat),
+  runner_wf r -> all_done (mrun r (length (ps_src st)) (@nostop) sched) ->
+  eager_vector st r sched = denote st.
+Proof. intros V st r sched Hw Hd. apply eager_vector_correct; assumption. Qed.
+Print Assumptions C01_eager_vector.
